@@ -92,3 +92,79 @@ Proof.
     revert vs; induction H as [|x xs Hx _ IH]; intros [|y ys]; try reflexivity;
     apply Forall_cons_iff in MI; destruct MI as [Mx MI]; rewrite (Hx y Mx); f_equal; apply IH; exact MI.
 Qed.
+
+
+(* ------------------------------------------------------------------ *)
+(* containment                                                         *)
+(* ------------------------------------------------------------------ *)
+Lemma is_prefix_spec t : forall s, is_prefix t s = true <-> exists post, s = t ++ post.
+Proof.
+  induction t as [|x t IH]; intros s; cbn [is_prefix].
+  - split; [intros _; exists s; reflexivity|auto].
+  - destruct s as [|y s]; [split; [discriminate|intros [post H]; discriminate H]|].
+    split.
+    + intros H. apply andb_prop in H. destruct H as [H1 H2]. apply Z.eqb_eq in H1. subst y.
+      apply IH in H2. destruct H2 as [post ->]. exists post. reflexivity.
+    + intros [post H]. cbn in H. injection H as -> ->. rewrite Z.eqb_refl. cbn. apply IH. exists post. reflexivity.
+Qed.
+
+Lemma is_infix_spec t : forall s, is_infix t s = true <-> exists pre post, s = pre ++ t ++ post.
+Proof.
+  intros s. induction s as [|y s IH]; cbn [is_infix].
+  - rewrite orb_false_r. rewrite is_prefix_spec. split.
+    + intros [post H]. exists [], post. exact H.
+    + intros [pre [post H]]. destruct pre; [exists post; exact H|discriminate H].
+  - split.
+    + intros H. apply orb_prop in H. destruct H as [H|H].
+      * apply is_prefix_spec in H. destruct H as [post H]. exists [], post. exact H.
+      * apply IH in H. destruct H as [pre [post ->]]. exists (y :: pre), post. reflexivity.
+    + intros [pre [post H]]. destruct pre as [|p pre].
+      * apply orb_true_intro. left. apply is_prefix_spec. exists post. exact H.
+      * apply orb_true_intro. right. cbn in H. injection H as -> ->. apply IH. exists pre, post. reflexivity.
+Qed.
+
+(* strings: substring semantics *)
+Theorem contains_strings o f s g t :
+  contains_o o (VStr f s) (VStr g t) = Ok (is_infix t s) /\
+  (is_infix t s = true <-> exists pre post, s = pre ++ t ++ post).
+Proof. split; [reflexivity|apply is_infix_spec]. Qed.
+
+(* lists, tuples, lazy iterables: v in c iff some element is == v *)
+Theorem contains_seq o c v xs : (c = VSeq xs \/ c = VTuple xs \/ exists sh, c = VIter sh xs) ->
+  exists b, contains_o o c v = Ok b /\ (b = true <-> exists e, In e xs /\ veq_o o e v = true).
+Proof.
+  intros H. exists (existsb (fun e => veq_o o e v) xs). split.
+  - destruct H as [-> | [-> | [sh ->]]]; reflexivity.
+  - rewrite existsb_exists. reflexivity.
+Qed.
+
+Lemma map_get_some v kvs : (exists x, map_get v kvs = Some x) <-> exists kv, In kv kvs /\ vcmp v (fst kv) = Eq.
+Proof.
+  induction kvs as [|[k x] r IH]; cbn [map_get].
+  - split; [intros [x H]; discriminate H|intros [kv [[] _]]].
+  - destruct (vcmp v k) eqn:C.
+    + split; [intros _; exists (k, x); split; [left; reflexivity|exact C]|intros _; exists x; reflexivity].
+    + rewrite IH. split; intros [kv [H1 H2]]; [exists kv; split; [right|]; auto|].
+      destruct H1 as [<- | H1]; [cbn in H2; congruence|exists kv; auto].
+    + rewrite IH. split; intros [kv [H1 H2]]; [exists kv; split; [right|]; auto|].
+      destruct H1 as [<- | H1]; [cbn in H2; congruence|exists kv; auto].
+Qed.
+
+(* maps (default build): v in m iff some key is == v -- outside the known pair classes, NaN
+   aside -- and iff m[v] is defined *)
+Theorem contains_map kvs v : wf (VMap kvs) = true -> wf v = true -> nan_free v = true ->
+  (forall kv, In kv kvs -> cross_kind v (fst kv) = false) ->
+  exists b, contains_o Sorted (VMap kvs) v = Ok b /\
+            (b = true <-> exists kv, In kv kvs /\ veq v (fst kv) = true) /\
+            (b = true <-> exists x, map_get v kvs = Some x).
+Proof.
+  intros W Wv NF NK.
+  exists (match map_get v kvs with Some _ => true | None => false end). split; [reflexivity|].
+  destruct (wf_map _ W) as [_ Wk]. unfold wfkeys in Wk. rewrite Forall_forall in Wk.
+  assert (L : (match map_get v kvs with Some _ => true | None => false end) = true <-> exists x, map_get v kvs = Some x).
+  { destruct (map_get v kvs) as [x|]; split; intros H; try discriminate H; [exists x; reflexivity|reflexivity|destruct H as [x H]; discriminate H]. }
+  split; [|exact L].
+  rewrite L, map_get_some. split; intros [kv [H1 H2]]; exists kv; split; auto.
+  - apply cmp_eq_veq; auto.
+  - apply veq_cmp_eq; auto.
+Qed.
